@@ -45,6 +45,7 @@ def run(ctx):
     if okm:
         streams["model"] = ("model", "dec")
     outs = corr.run_streams(ctx, lines, streams)
+    outs["py"] = [decgen.strip_history(l) for l in outs["py"]]
     corr.compare(ctx, "decode+encode", lines, outs, [("py", "model")])
     # round trip on the implementation
     rtl = [f"{c[0]} {rng.choice(['-', '00', 'ff', '560400', '32', '%04x' % rng.randrange(65536)])} {c[2]}" for c in cases]
